@@ -13,6 +13,10 @@ import Mathlib.LinearAlgebra.Matrix.NonsingularInverse
 import Mathlib.LinearAlgebra.Matrix.Adjugate
 import Mathlib.LinearAlgebra.Matrix.Trace
 import Mathlib.LinearAlgebra.Matrix.Block
+import Mathlib.LinearAlgebra.Matrix.PosDef
+import Mathlib.Analysis.Matrix.PosDef
+import Mathlib.LinearAlgebra.Matrix.Notation
+import Mathlib.LinearAlgebra.Matrix.Determinant.Basic
 import Mathlib.Analysis.Calculus.Deriv.Basic
 import Mathlib.Analysis.Calculus.Deriv.Add
 import Mathlib.Analysis.Calculus.Deriv.Mul
@@ -21,6 +25,9 @@ import Mathlib.Analysis.SpecialFunctions.Log.Deriv
 import Mathlib.Tactic.Ring
 import Mathlib.Tactic.Linarith
 import Mathlib.Tactic.FieldSimp
+import Mathlib.Tactic.FinCases
+import Mathlib.Tactic.NormNum
+import Mathlib.Tactic.Positivity
 
 namespace C04
 open Matrix
@@ -397,6 +404,131 @@ theorem loglikGLS_hasDerivAt {K : ℝ → Matrix (Fin n) (Fin n) ℝ} {K' : Matr
   rw [dotProduct_add, e1, e2, e3]
   ring
 
+/-- the model's gradient entry is the derivative of the model's value, polynomial mean included -/
+theorem loglik_list_gls_hasDerivAt {K L : ℝ → Matrix (Fin n) (Fin n) ℝ} {K' : Matrix (Fin n) (Fin n) ℝ} {θ : ℝ}
+    (hK : ∀ i j, HasDerivAt (fun t => K t i j) (K' i j) θ)
+    (hchol : ∀ᶠ t in nhds θ, K t = L t * (L t)ᵀ ∧ (∀ i j, i < j → L t i j = 0) ∧ ∀ i, 0 < L t i i)
+    (P : Matrix (Fin n) (Fin p) ℝ) (hG : (Pᵀ * (K θ)⁻¹ * P).det ≠ 0) (s : ℝ) (y : Fin n → ℝ) :
+    HasDerivAt
+      (fun t => loglik s (List.ofFn (glsResidual P (K t) y)) (List.ofFn ((K t)⁻¹ *ᵥ glsResidual P (K t) y))
+        (List.ofFn fun i => L t i i))
+      ((loglikGrad s (List.ofFn ((K θ)⁻¹ *ᵥ glsResidual P (K θ) y)) (ofFnM (K θ)⁻¹) [ofFnM K'] [1]).getD 0 0) θ := by
+  obtain ⟨hθ, htri, hdiag⟩ := hchol.self_of_nhds
+  have hpos : 0 < (K θ).det := by rw [hθ]; exact det_cholesky_pos _ htri hdiag
+  have hsymm : (K θ).IsSymm := by
+    rw [hθ, Matrix.IsSymm, Matrix.transpose_mul, Matrix.transpose_transpose]
+  rw [loglikGrad_ofFn]
+  refine (loglikGLS_hasDerivAt hK hpos hsymm P hG s y).congr_of_eventuallyEq ?_
+  filter_upwards [hchol] with t ht
+  rw [loglik_ofFn, ht.1, logdet_cholesky _ ht.2.1 ht.2.2]
+
+/-- the hypotheses on `K θ` and `P` follow from positive definiteness and full column rank -/
+theorem gls_hyp_of_posDef {K : Matrix (Fin n) (Fin n) ℝ} (hK : K.PosDef) (P : Matrix (Fin n) (Fin p) ℝ)
+    (hP : Function.Injective P.mulVec) :
+    0 < K.det ∧ K.IsSymm ∧ (Pᵀ * K⁻¹ * P).det ≠ 0 := by
+  refine ⟨hK.det_pos, ?_, ?_⟩
+  · have := hK.1
+    rwa [Matrix.IsHermitian, Matrix.conjTranspose_eq_transpose_of_trivial] at this
+  · have h := hK.inv.conjTranspose_mul_mul_same hP
+    rw [Matrix.conjTranspose_eq_transpose_of_trivial] at h
+    exact h.det_pos.ne'
+
 end GLS
+
+/-! ### non-vacuity: concrete 2 × 2 families satisfying every hypothesis -/
+
+section Example
+
+/-- `K t = [[2 + t, 1], [1, 2]]` at θ = 0 -/
+example (s : ℝ) (r : Fin 2 → ℝ) :
+    HasDerivAt (fun t : ℝ => -s * (r ⬝ᵥ ((!![2 + t, 1; 1, 2] : Matrix (Fin 2) (Fin 2) ℝ)⁻¹ *ᵥ r)
+        + Real.log (!![2 + t, 1; 1, 2] : Matrix (Fin 2) (Fin 2) ℝ).det))
+      (-s * (-(((!![2 + 0, 1; 1, 2] : Matrix (Fin 2) (Fin 2) ℝ)⁻¹ *ᵥ r) ⬝ᵥ
+          ((!![1, 0; 0, 0] : Matrix (Fin 2) (Fin 2) ℝ) *ᵥ ((!![2 + 0, 1; 1, 2] : Matrix (Fin 2) (Fin 2) ℝ)⁻¹ *ᵥ r)))
+        + Matrix.trace ((!![2 + 0, 1; 1, 2] : Matrix (Fin 2) (Fin 2) ℝ)⁻¹ * !![1, 0; 0, 0]))) 0 := by
+  refine loglikMatrix_hasDerivAt (K := fun t : ℝ => !![2 + t, 1; 1, 2]) (K' := !![1, 0; 0, 0]) ?_ ?_ ?_ s r
+  · intro i j
+    fin_cases i <;> fin_cases j
+    · simpa using (hasDerivAt_id (0 : ℝ)).const_add 2
+    · simpa using hasDerivAt_const (0 : ℝ) (1 : ℝ)
+    · simpa using hasDerivAt_const (0 : ℝ) (1 : ℝ)
+    · simpa using hasDerivAt_const (0 : ℝ) (2 : ℝ)
+  · rw [Matrix.det_fin_two_of]; norm_num
+  · ext i j
+    fin_cases i <;> fin_cases j <;> rfl
+
+/-- the Cholesky hypothesis of the list-model statement is satisfiable: `L t = [[1 + t, 0], [1, 1]]`,
+    `K t = L t (L t)ᵀ = [[(1+t)², 1+t], [1+t, 2]]` at θ = 0 -/
+example (s : ℝ) (r : Fin 2 → ℝ) :
+    let L : ℝ → Matrix (Fin 2) (Fin 2) ℝ := fun t => !![1 + t, 0; 1, 1]
+    let K : ℝ → Matrix (Fin 2) (Fin 2) ℝ := fun t => L t * (L t)ᵀ
+    HasDerivAt (fun t => loglik s (List.ofFn r) (List.ofFn ((K t)⁻¹ *ᵥ r)) (List.ofFn fun i => L t i i))
+      ((loglikGrad s (List.ofFn ((K 0)⁻¹ *ᵥ r)) (ofFnM (K 0)⁻¹) [ofFnM !![2, 1; 1, 0]] [1]).getD 0 0) 0 := by
+  intro L K
+  refine loglik_list_hasDerivAt (K := K) (L := L) (K' := !![2, 1; 1, 0]) ?_ ?_ s r
+  · intro i j
+    have hK : ∀ t, K t = !![(1 + t) * (1 + t), 1 + t; 1 + t, 2] := by
+      intro t
+      ext a b
+      fin_cases a <;> fin_cases b <;> simp [K, L, Matrix.vecMul, dotProduct, Fin.sum_univ_two]
+      norm_num
+    simp only [hK]
+    have h1 : HasDerivAt (fun t : ℝ => 1 + t) 1 0 := (hasDerivAt_id (0 : ℝ)).const_add 1
+    fin_cases i <;> fin_cases j
+    · show HasDerivAt (fun t : ℝ => (1 + t) * (1 + t)) 2 0
+      exact (h1.fun_mul h1).congr_deriv (by norm_num)
+    · exact h1
+    · exact h1
+    · exact hasDerivAt_const (0 : ℝ) (2 : ℝ)
+  · have hev : ∀ᶠ t : ℝ in nhds 0, -1 < t := lt_mem_nhds (by norm_num)
+    filter_upwards [hev] with t ht
+    refine ⟨rfl, ?_, ?_⟩
+    · intro i j hij
+      fin_cases i <;> fin_cases j <;> simp_all [L]
+    · intro i
+      fin_cases i <;> simp [L]
+      linarith
+
+/-- the hypotheses of the polynomial-mean statement are satisfiable: constant mean (`P` = a column of ones),
+    `K t = [[2 + t, 1], [1, 2]]` at θ = 0 -/
+example (s : ℝ) (y : Fin 2 → ℝ) :
+    let K : ℝ → Matrix (Fin 2) (Fin 2) ℝ := fun t => !![2 + t, 1; 1, 2]
+    let P : Matrix (Fin 2) (Fin 1) ℝ := !![1; 1]
+    HasDerivAt
+      (fun t => -s * (glsResidual P (K t) y ⬝ᵥ ((K t)⁻¹ *ᵥ glsResidual P (K t) y) + Real.log (K t).det))
+      (-s * (-(((K 0)⁻¹ *ᵥ glsResidual P (K 0) y) ⬝ᵥ
+          ((!![1, 0; 0, 0] : Matrix (Fin 2) (Fin 2) ℝ) *ᵥ ((K 0)⁻¹ *ᵥ glsResidual P (K 0) y)))
+        + Matrix.trace ((K 0)⁻¹ * !![1, 0; 0, 0]))) 0 := by
+  intro K P
+  have hpd : (K 0).PosDef := by
+    refine Matrix.PosDef.of_dotProduct_mulVec_pos ?_ fun x hx => ?_
+    · ext i j
+      fin_cases i <;> fin_cases j <;> simp [K]
+    · have hx' : x 0 ≠ 0 ∨ x 1 ≠ 0 := by
+        by_contra h
+        rw [not_or, not_not, not_not] at h
+        exact hx (funext fun i => by fin_cases i <;> simp [h.1, h.2])
+      have : star x ⬝ᵥ (K 0 *ᵥ x) = (x 0 + x 1) ^ 2 + x 0 ^ 2 + x 1 ^ 2 := by
+        simp [K, dotProduct, Matrix.mulVec, Fin.sum_univ_two]
+        ring
+      rw [this]
+      rcases hx' with h | h <;> positivity
+  have hP : Function.Injective P.mulVec := by
+    intro u v huv
+    have := congrFun huv 0
+    simp [P, Matrix.mulVec, dotProduct] at this
+    funext i
+    fin_cases i
+    exact this
+  obtain ⟨hpos, hsymm, hG⟩ := gls_hyp_of_posDef hpd P hP
+  refine loglikGLS_hasDerivAt (K := K) (K' := !![1, 0; 0, 0]) ?_ hpos hsymm P hG s y
+  intro i j
+  fin_cases i <;> fin_cases j
+  · simpa [K] using (hasDerivAt_id (0 : ℝ)).const_add 2
+  · simpa [K] using hasDerivAt_const (0 : ℝ) (1 : ℝ)
+  · simpa [K] using hasDerivAt_const (0 : ℝ) (1 : ℝ)
+  · simpa [K] using hasDerivAt_const (0 : ℝ) (2 : ℝ)
+
+end Example
 
 end C04
